@@ -113,6 +113,79 @@ def h_characterisation_purity(h, name, branch):
         h.claim(f'{cid}/reference-isotherm-unchanged', unchanged(h, before_ref, full_snapshot(ref)))
 
 
+def h_no_hidden_state(h, name):
+    """An analysis does not depend on analyses run earlier in the process (module-level or functools caches keyed by adsorbate
+    name / temperature / rounded data).  Three runs of the same entry point in one process:
+        1. isotherm B with its adsorbate under a DIFFERENT name (the 'fresh' answer for B; same property values, same backend),
+        2. isotherm A (adsorbate 'fakegas', other property values, other data, same temperature),
+        3. isotherm B with the adsorbate named 'fakegas' like A's.
+    The kernel arguments of run 3 must equal those of run 1."""
+    from .c15 import leaves_equal
+    T = h.real('T', pos=True)
+    units = dict(S0, pressure_mode='relative', pressure_unit=None)
+
+    def world(tag, adsname, props_tag):
+        ads = stubs.fake_adsorbate(h, adsname, props_tag)
+        if h.sym:
+            ads._state.positivity(T)
+        ads.properties.update(wrappers.ADS_PROPS)
+        ads.properties['cross_sectional_area'] = h.real(f'cross_section_{props_tag}', pos=True)
+        ps = isofix.increasing(h, [f'{tag}p{i}' for i in range(3)])
+        h.assume(ps[-1] < 1)
+        ns = isofix.increasing(h, [f'{tag}n{i}' for i in range(3)])
+        mat = isofix.sym_material(h, name=f'mat{tag}')
+        iso = isofix.point_iso(h, ps, ns, units=units, ads=ads, mat=mat, T=T, branch=[0, 0, 0],
+                               extra={'enthalpy': isofix.column(h, [h.real(f'{tag}e{i}') for i in range(3)])})
+        return iso
+    extra = {'branch': 'ads'}
+    if name == 'alpha_s':
+        return
+    with isofix.interp_patch(h):
+        fresh_res, fresh_calls = wrappers.run(name, world('b', 'othergas', 'g'), extra)
+        a_res, a_calls = wrappers.run(name, world('a', 'fakegas', 'f'), extra)
+        res, calls = wrappers.run(name, world('b', 'fakegas', 'g'), extra)
+    cid = f'C04/no-hidden-state/{name}'
+    if isinstance(fresh_res, Exception) or isinstance(res, Exception):
+        h.claim(f'{cid}/second-analysis-behaves-like-the-fresh-one', type(fresh_res) is type(res), info=f'{fresh_res!r} vs {res!r}'[:200])
+        return
+    ok, why = leaves_equal(h, [c[0] for c in calls] + [c[1] for c in calls], [c[0] for c in fresh_calls] + [c[1] for c in fresh_calls], 1e-12)
+    h.claim(f'{cid}/second-analysis-delivers-the-same-kernel-arguments-as-a-fresh-one', ok, info=why)
+
+
+def h_export_purity(h, kind):
+    """to_json (json module = identity on JSON values) leaves the exported isotherm unchanged: identifier, parameters, data"""
+    import pygaps.parsing.json as pj
+    from .c06 import FakeJson
+    from .c10 import get_model
+    T = h.real('T', pos=True)
+    ads = stubs.fake_adsorbate(h, 'fakegas', 'f')
+    if kind == 'model':
+        m = get_model('Langmuir')
+        K, nm = h.real('K', pos=True), h.real('nm', pos=True)
+        m.params = {'K': K, 'n_m': nm}
+        m.rmse = h.real('rmse', nonneg=True)
+        iso = isofix.model_iso(h, m, ads=ads, T=T)
+        iso._adsorbate = type(ads)('fakegas-placeholder')
+        before = (dict(m.params), m.rmse, tuple(m.pressure_range), tuple(m.loading_range), iso._temperature, dict(iso.properties))
+        FakeJson.docs = {}
+        with stubs.patched((pj, 'json', FakeJson)):
+            pj.isotherm_to_json(iso)
+        after = (dict(m.params), m.rmse, tuple(m.pressure_range), tuple(m.loading_range), iso._temperature, dict(iso.properties))
+        ok = h.eq(after[0]['K'], before[0]['K']) & h.eq(after[0]['n_m'], before[0]['n_m']) & h.eq(after[1], before[1]) & h.eq(after[4], before[4])
+        h.claim('C04/purity/to_json/model/parameters,rmse,temperature-unchanged', ok)
+        h.claim('C04/purity/to_json/model/ranges,metadata-unchanged', before[2:4] == after[2:4] and before[5] == after[5])
+    else:
+        env = c02.Env(h, k=3)
+        iso = make_iso(h, env)
+        iso._adsorbate = type(ads)('fakegas-placeholder')
+        iso._adsorbate.properties.update(wrappers.ADS_PROPS)
+        before = full_snapshot(iso)
+        FakeJson.docs = {}
+        with stubs.patched((pj, 'json', FakeJson)):
+            pj.isotherm_to_json(iso)
+        h.claim('C04/purity/to_json/point/isotherm-unchanged', unchanged(h, before, full_snapshot(iso)))
+
+
 def h_multi_iso_purity(h, which):
     """isosteric_enthalpy / iast_point / whittaker: every isotherm passed in is unchanged (mixed units on purpose)"""
     env = c02.Env(h, k=3)
@@ -270,6 +343,11 @@ def obligations(tier):
     for name in wrappers.entries():
         for branch in ('ads', 'des'):
             obs.append(Obligation(f'C04/purity/{name}/{branch}', h_characterisation_purity, (name, branch), bounds='k=3', **kw))
+    for name in wrappers.entries():
+        if name != 'alpha_s':
+            obs.append(Obligation(f'C04/no-hidden-state/{name}', h_no_hidden_state, (name,), bounds='k=3; three runs in one process', **kw))
+    for kind in ('model', 'point'):
+        obs.append(Obligation(f'C04/purity/to_json/{kind}', h_export_purity, (kind,), bounds='k=3', **kw))
     for w in ('isosteric_enthalpy', 'iast_point', 'whittaker'):
         obs.append(Obligation(f'C04/purity/{w}', h_multi_iso_purity, (w,), bounds='k=3; 2-3 isotherms in mixed units', **kw))
     for method in ('loading_at', 'pressure_at', 'spreading_pressure_at'):
